@@ -196,7 +196,9 @@ fn written_val(op: &WOp, real: &Option<Data>) -> RVal {
     }
 }
 
-/// why may this value legitimately (= by a known defect) fail to round-trip?
+/// signature of a value that fails to round-trip.  The classes `len>=4096` and `v>=2^60` were known
+/// findings (P6, P5) until the repairs of round 2; they are kept as signatures so that a regression
+/// names its cause — no known finding matches them any more, so each is a VIOLATION.
 fn classify_prim(op: &WOp, panicked: bool) -> String {
     let mut long = false;
     let mut big = false;
@@ -597,14 +599,17 @@ fn gen_prim_case(p: &mut Prng) -> Vec<WOp> {
         .collect()
 }
 
-/// header + payload of a string as the writer would emit it (len < 4096)
+/// header + payload of a string as the writer would emit it
 fn enc_str(s: &[u8]) -> Vec<u8> {
     let mut v = Vec::new();
     if s.len() < 16 {
         v.push(0xC0 | s.len() as u8);
-    } else {
+    } else if s.len() < 4096 {
         v.push(0xD0 | ((s.len() >> 8) as u8 & 0x0F));
         v.push(s.len() as u8);
+    } else {
+        v.push(0xE0);
+        v.extend_from_slice(&(s.len() as u64).to_be_bytes());
     }
     v.extend_from_slice(s);
     v
@@ -1485,7 +1490,9 @@ pub fn real_sink_prims(ops: &[(WOp, Option<Data>)], script: &[(usize, Fault)], f
 /// the oracle for one faulty run, given the complete image
 fn sink_oracle(run: &SinkRun, full: &[u8], script: &[(usize, Fault)], flush_fails: bool, rep: &mut Report, ctx: Value) {
     if run.panicked {
-        return; // a writer panic belongs to C05 (strings >= 4096)
+        // the writer has no panic site since `write_str` stopped slicing its argument
+        ofail(rep, "C18:write:writer-panic", ctx);
+        return;
     }
     let mut failing_reached = false;
     let mut short_reached = false;
@@ -1767,8 +1774,10 @@ pub fn check_c18_fsm(c: &FsmCase, thorough: bool, p: &mut Prng, model: &mut Mode
         j["flush_fails"] = json!(flush);
         sink_oracle(&run, &img, &script, flush, rep, j);
     }
-    // every KIND of error counts: a string payload is handed to the sink with one plain `write`, which
-    // nothing repeats — whatever error that call returns, the writer must end in its error state
+    // every KIND of error counts: whatever error a payload call returns, the writer must end in its
+    // error state.  One exception since the payload goes through `write_all` (round 2): std repeats a
+    // call that was `Interrupted`, as it always did for the single-byte writes — then nothing is lost
+    // and the complete image must arrive instead
     // (oracle only: the Lean sink model has one kind of failure)
     let payload_calls: Vec<usize> = probe.requested.iter().enumerate().filter(|(_, l)| **l > 1).map(|(i, _)| i).collect();
     for (n, i) in payload_calls.iter().enumerate() {
@@ -1788,7 +1797,11 @@ pub fn check_c18_fsm(c: &FsmCase, thorough: bool, p: &mut Prng, model: &mut Mode
             if r.is_err() {
                 continue;
             }
-            if !w.writer.has_error() {
+            let retried = kind == std::io::ErrorKind::Interrupted && w.writer.get_writer().out == img;
+            if retried {
+                rep.count("sink_interrupted_call_repeated_complete_image");
+            }
+            if !w.writer.has_error() && !retried {
                 let mut j = case_json(c, origin);
                 j["case"] = json!("sink-error-kind");
                 j["call"] = json!(i);
@@ -1866,9 +1879,10 @@ pub fn run_c18(args: &Args, model: &mut Model) -> Report {
         let ops: Vec<WOp> = gen_prim_case(&mut p)
             .into_iter()
             .map(|o| match o {
-                // strings of 4096 and more are C05's business; keep them below here
-                WOp::S(s) if s.len() >= 4096 => WOp::S(make_string(s.len() % 4096, "a", 0)),
-                WOp::O(Some(s)) if s.len() >= 4096 => WOp::O(Some(make_string(s.len() % 4096, "é", 1))),
+                // long strings (type 0xE0) go through the faulty sinks too, but not the very long ones:
+                // a fault is placed at every call of the run
+                WOp::S(s) if s.len() > 8200 => WOp::S(make_string(s.len() % 4096 + 4096, "a", 0)),
+                WOp::O(Some(s)) if s.len() > 8200 => WOp::O(Some(make_string(s.len() % 4096 + 4096, "é", 1))),
                 WOp::D(_) => WOp::D(gen_data(&mut p, 1, false)),
                 o => o,
             })
